@@ -137,14 +137,23 @@ def run(ctx):
         S["kw"]["units_system"] = {"space": rng.choice(["nm", "mm", "dm"]), "time": rng.choice(["ms", "min", "µs"]), "quantity": rng.choice(["mol", "µmol", "nmol"])}
         S["kw"].pop("__from_dict__", None)
         entries.append({"S": S, "info": info, "option": "euler", "eng": "euler", "idx": n + 400 + b, "conv3": True})
-    # Euler decay followed into the SUBNORMAL range (k dt = 0.1, > 6900 steps): run()-driven vs iterate()-driven, bit for bit
-    for b in range(1):
+    # Euler decay followed into the SUBNORMAL range (k dt = 0.1, > 6900 steps): run()-driven vs iterate()-driven, bit for bit; one on a
+    # grid and one on a graph, each also run AFTER Euler simulations on the other kind of space in the same process (a simulation
+    # that leaves the thread's floating-point control state changed — flush-to-zero, rounding mode — shows only in such values)
+    for b in range(2):
+        if b == 0:
+            space = {"type": "grid", "w": 1, "h": 1, "d": 1, "cell_volume": 1.0, "cell_env": [0], "boundary_conditions": {}}
+            state, ncell = [1.0, 0.0], 1
+        else:
+            space = {"type": "graph", "nodes": [{"volume": 1.0, "environment": 0} for _ in range(2)],
+                     "edges": [{"nodes": [0, 1], "surface": 1.0, "distance": 1.0}]}
+            state, ncell = [1.0, 0.75, 0.0, 0.0], 2
         sysd = {"network": {"species": [{"label": "A", "density": 0, "D": 0}, {"label": "B", "density": 0, "D": 0}],
                             "reactions": [{"eq": "A -> B", "k+": 1.0}], "environments": ["a"]},
-                "space": {"type": "grid", "w": 1, "h": 1, "d": 1, "cell_volume": 1.0, "cell_env": [0], "boundary_conditions": {}}, "state": [1.0, 0.0]}
+                "space": space, "state": state}
         S = {"system": sysd, "kw": {"t_sample": [0.0], "time_step": 0.1, "t_max": 0.1 * rng.randint(7150, 7400), "sampling_policy": "on_iteration",
                                     "rng_seed": 1, "init_state_processing": "none"}}
-        info = {"option": "euler", "policy": "on_iteration", "space": "grid", "nsp": 2, "n": 1, "mode": "none", "subnormal": True}
+        info = {"option": "euler", "policy": "on_iteration", "space": space["type"], "nsp": 2, "n": ncell, "mode": "none", "subnormal": True}
         entries.append({"S": S, "info": info, "option": "euler", "eng": "euler", "idx": n + 500 + b, "subnormal": True})
     # parameters with more than 6 significant digits (15-17), for the persistence routes (dict / file / trajectory.script)
     for b in range(ctx.n(4, 16)):
@@ -210,7 +219,8 @@ def run(ctx):
         for v in range(nsched):
             kind = KINDS[v] if v < len(KINDS) else rng.choice(["schedule", "after_others", "reused", "simulate", "twice", "poll_reused", "edit_resim"])
             if e.get("subnormal"):
-                kind = "schedule"
+                kind = "schedule" if v % 2 == 0 else "after_others"
+                others = [o for o in good if o is not e and o["eng"] == "euler" and o["info"].get("space") != e["info"].get("space")] or others
             if e.get("digits"):
                 kind = ["persist:dict", "persist:file", "persist:traj_dict", "persist:traj_file", "noseed", "schedule"][v % 6]
             if e.get("bigmean"):
